@@ -75,6 +75,7 @@ class SrcInfo:
         self.structs = {}   # name -> [field names] (tuple struct: ['0','1',..])
         self.enums = {}     # name -> [(variant name, [field names] or None)]
         self.struct_kind = {}
+        self.enum_defs = {}
         self.impl_cache = {}
         for dp, dn, fn in os.walk(os.path.join(root, 'src')):
             for f in fn:
@@ -91,6 +92,20 @@ class SrcInfo:
         self.enums.setdefault('Cow', [('Borrowed', ['0']), ('Owned', ['0'])])
         self.enums.setdefault('FpCategory', [('Nan', []), ('Infinite', []), ('Zero', []), ('Subnormal', []), ('Normal', [])])
         self.enums.setdefault('Entry', [('Vacant', ['0']), ('Occupied', ['0'])])
+
+    def resolve_enum(self, segs, variant=None):
+        """segs: path segments ending with the enum name -> key into self.enums (module-qualified when ambiguous)"""
+        name = segs[-1]
+        defs = self.enum_defs.get(name, [])
+        if len(defs) <= 1:
+            return name if name in self.enums else None
+        if len(segs) >= 2 and ('%s::%s' % (segs[-2], name)) in self.enums:
+            return '%s::%s' % (segs[-2], name)
+        if variant is not None:
+            c = [d for d in defs if any(v == variant for v, _ in self.enums[d])]
+            if len(c) == 1:
+                return c[0]
+        return name
 
     def _scan_decls(self, path, src):
         for m in re.finditer(r'\b(struct|enum)\s+([A-Za-z_]\w*)\s*(<[^{;(]*>)?\s*(where[^{;]*)?([{(;])', src):
@@ -134,6 +149,9 @@ class SrcInfo:
                     else:
                         variants.append((vname, []))
                 self.enums.setdefault(name, variants)
+                stem = os.path.splitext(os.path.basename(path))[0]
+                self.enums.setdefault('%s::%s' % (stem, name), variants)
+                self.enum_defs.setdefault(name, []).append('%s::%s' % (stem, name))
 
     @staticmethod
     def _field_names(body):
